@@ -37,7 +37,7 @@ atexit.register(_cleanup)
 
 
 class Overlay:
-    def __init__(self, appends=None, extra_files=None, tag="nlv"):
+    def __init__(self, appends=None, extra_files=None, tag="nlv", shims=None):
         """appends: {relative source file: [harness file names]}"""
         base = os.environ.get("NLV_TMP") or tempfile.gettempdir()
         self.dir = tempfile.mkdtemp(prefix=tag + "-", dir=base)
@@ -60,6 +60,14 @@ class Overlay:
         for rel, files in (appends or {}).items():
             for h in files:
                 self.append(rel, h)
+        # dependency models (overlay only): [patch.crates-io] <crate> = { path = "shim/<crate>" }
+        self.shims = list(shims or [])
+        if self.shims:
+            with open(os.path.join(self.dir, "Cargo.toml"), "a") as f:
+                f.write("\n[patch.crates-io]\n")
+                for name in self.shims:
+                    shutil.copytree(os.path.join(HARNESS, "shim_" + name), os.path.join(self.dir, "shim", name))
+                    f.write('%s = { path = "shim/%s" }\n' % (name, name))
         for rel, h in (extra_files or {}).items():
             dst = os.path.join(self.dir, rel)
             os.makedirs(os.path.dirname(dst), exist_ok=True)
